@@ -619,8 +619,10 @@ def probe_cases(thorough: bool):
     add = lambda e, note='': cases.append(Case(e, kind='probe', note=note))
     todo = [(name, seq(items), len(items), items) for name, items in probe_sequences()]
     todo += [(name, e, n, None) for name, e, n in node_sequences()]
-    for name, s, n, items in todo:
+    for idx, (name, s, n, items) in enumerate(todo):
         nums = boundary_numbers(n)
+        if not thorough and idx >= 10:
+            nums = nums[::3]                      # quick: positional sweep thinned for the value-level sequences
         for a in nums:
             add(F('subsequence', s, a), name)
             add(('filter', s, a), name)                       # S[a]
@@ -741,6 +743,8 @@ def equivalence_cases(rng, thorough: bool):
         out.append(b)
 
     seqs = [s for _, s in probe_sequences()]
+    if not thorough:
+        seqs = seqs[:10] + seqs[10::3]           # quick: the value-level sequences are thinned
     for items in seqs:
         s = seq(items)
         n = len(items)
@@ -748,7 +752,7 @@ def equivalence_cases(rng, thorough: bool):
         for a in nums:
             ra = F('round', a)
             pair('subsequence2-as-filter', F('subsequence', s, a), ('filter', s, ('cmp', 'le', ra, pos)))
-            for b in (nums if thorough else rng.sample(nums, 6)):
+            for b in (nums if thorough else rng.sample(nums, 3)):
                 rb = F('round', b)
                 pair('subsequence-as-filter', F('subsequence', s, a, b),
                      ('filter', s, ('and', ('cmp', 'le', ra, pos), ('cmp', 'lt', pos, ('ar', '+', ra, rb)))))
@@ -1591,7 +1595,7 @@ def body(run: Run) -> int:
         cases = probe_cases(not run.quick)
         cases += equivalence_cases(rng, not run.quick)
         cases = [c for c in cases if c is not None]
-        cases += random_cases(rng, run.scale(8000, 120000), 6 if run.quick else 7)
+        cases += random_cases(rng, run.scale(7000, 70000), 6 if run.quick else 7)
         run.stats.rule = ('an evaluation = one expression in one dynamic context (item, position, size, variables) '
                           'evaluated by the Lean model, the Lean specification and the real engine under every '
                           'parser class that has the syntax (3.1, 3.0, 2.0); distinct = distinct (expression, '
